@@ -143,7 +143,7 @@ class ClaytonCopula(LevyCopula):
         theta = self.theta
         u_prod = np.prod(u)
         theta_prod = np.prod(1 + np.arange(dim) * theta)
-        factor = self.eta if u_prod >= 0 else -(1.0 - self.eta)
+        factor = self.eta if u_prod >= 0 else (1.0 - self.eta)
 
         res = 2 ** (2 - dim) * theta_prod * factor
         term1 = abs(u_prod) ** (-theta - 1)
